@@ -194,6 +194,8 @@ let run (cols : string array) : string =
       let m = value () in
       let es = validate_rules (b_of_s cols.(1)) m (cols.(2) = "1") in
       String.concat ";" (List.map (fun e -> str e.ecode ^ ":" ^ str e.efield) es)
+  (* fmt <FieldType> <hex content>: does the content have the documented format of the type? *)
+  | "fmt" -> (match format_accepts (b_of_s cols.(1)) (unhex cols.(2)) with Some true -> "1" | Some false -> "0" | None -> "NOFORMAT")
   | "fampos" -> String.concat ";" (List.map (fun (t, (f, b)) -> str t ^ "|" ^ str f ^ "|" ^ str b) positions)
   | "hdr1" -> (match parse_b1 (unhex cols.(1)) with None -> "ERR" | Some h -> "OK\t" ^ hex (display_b1 h) ^ "\t" ^ hex h.bh_sender_bic)
   | "hdr2" -> (match parse_b2 (unhex cols.(1)) with None -> "ERR" | Some h -> "OK\t" ^ hex (display_b2 h) ^ "\t" ^ hex (message_type_of h))
